@@ -456,4 +456,100 @@ theorem lookup_map_self {β : Type} (l : List String) (f : String → β) (n : S
       simp [e]
 
 
+/-! ### lemmas for the tiling theorem -/
+
+theorem minList_cons_min (xs ys : List Int) (h : xs ≠ []) : minList (minList xs :: ys) = minList (xs ++ ys) := by
+  have hne : xs ++ ys ≠ [] := by simp [h]
+  have h1 : minList (xs ++ ys) ≤ minList (minList xs :: ys) := by
+    have hm := minList_mem (minList xs :: ys) (by simp)
+    rcases List.mem_cons.mp hm with e | e
+    · rw [e]; exact minList_le _ _ (List.mem_append_left _ (minList_mem xs h))
+    · exact minList_le _ _ (List.mem_append_right _ e)
+  have h2 : minList (minList xs :: ys) ≤ minList (xs ++ ys) := by
+    have hm := minList_mem (xs ++ ys) hne
+    rcases List.mem_append.mp hm with e | e
+    · have a := minList_le (minList xs :: ys) (minList xs) (by simp)
+      have b := minList_le xs _ e
+      omega
+    · exact minList_le _ _ (List.mem_cons_of_mem _ e)
+  omega
+
+theorem maxList_cons_max (xs ys : List Int) (h : xs ≠ []) : maxList (maxList xs :: ys) = maxList (xs ++ ys) := by
+  have hne : xs ++ ys ≠ [] := by simp [h]
+  have h1 : maxList (maxList xs :: ys) ≤ maxList (xs ++ ys) := by
+    have hm := maxList_mem (maxList xs :: ys) (by simp)
+    rcases List.mem_cons.mp hm with e | e
+    · rw [e]; exact le_maxList _ _ (List.mem_append_left _ (maxList_mem xs h))
+    · exact le_maxList _ _ (List.mem_append_right _ e)
+  have h2 : maxList (xs ++ ys) ≤ maxList (maxList xs :: ys) := by
+    have hm := maxList_mem (xs ++ ys) hne
+    rcases List.mem_append.mp hm with e | e
+    · have a := le_maxList (maxList xs :: ys) (maxList xs) (by simp)
+      have b := le_maxList xs _ e
+      omega
+    · exact le_maxList _ _ (List.mem_cons_of_mem _ e)
+  omega
+
+theorem allIdx_length (s : List Nat) : ∀ p ∈ allIdx s, p.length = s.length := by
+  induction s with
+  | nil => intro p hp; simp [allIdx] at hp; simp [hp]
+  | cons x xs ih =>
+    intro p hp
+    simp only [allIdx, List.mem_flatMap, List.mem_map] at hp
+    obtain ⟨i, _, r, hr, rfl⟩ := hp
+    simp [ih r hr]
+
+theorem inRange_iff (q : List Int) (s : List Nat) :
+    inRange q s = true ↔ q.length = s.length ∧ ∀ k, k < s.length → 0 ≤ axis k q ∧ axis k q < ((s.getD k 0 : Nat) : Int) := by
+  induction q generalizing s with
+  | nil =>
+    cases s with
+    | nil => simp [inRange]
+    | cons x xs => simp [inRange]
+  | cons a q ih =>
+    cases s with
+    | nil => simp [inRange]
+    | cons x xs =>
+      simp only [inRange, Bool.and_eq_true, decide_eq_true_eq, ih, List.length_cons, Nat.add_right_cancel_iff]
+      constructor
+      · rintro ⟨⟨h0, h1⟩, hl, hr⟩
+        refine ⟨hl, ?_⟩
+        intro k hk
+        cases k with
+        | zero => simpa [axis] using ⟨h0, h1⟩
+        | succ k => simpa [axis] using hr k (by omega)
+      · rintro ⟨hl, hr⟩
+        refine ⟨by simpa [axis] using hr 0 (by omega), hl, ?_⟩
+        intro k hk
+        simpa [axis] using hr (k + 1) (by omega)
+
+theorem sub_length (p q : List Int) : (sub p q).length = min p.length q.length := by simp [sub]
+
+/-- the same image seen from two frames: normalised by `M₁` and looked at at `p - (M₁ - M)`, or normalised by `M` and
+looked at at `p` -/
+theorem at_reframe (a : Arr) (M₁ M p : List Int) (ndim : Nat) (hp : p.length = ndim) (ha : a.off.length = ndim)
+    (hM₁ : M₁.length = ndim) (hM : M.length = ndim) :
+    ({ a with off := sub a.off M₁ } : Arr).at (sub p (sub M₁ M)) = ({ a with off := sub a.off M } : Arr).at p := by
+  have key : sub (sub p (sub M₁ M)) (sub a.off M₁) = sub p (sub a.off M) := by
+    apply List.ext_getElem
+    · simp [sub_length, hp, ha, hM₁, hM]
+    · intro i h1 h2
+      simp only [sub, List.getElem_zipWith]
+      omega
+  unfold Arr.at Arr.inside
+  simp only [key, sub_length, hp, ha, hM₁, hM, Nat.min_self]
+
+theorem contribs_reframe (l : List Arr) (M₁ M p : List Int) (ndim : Nat) (hp : p.length = ndim)
+    (hl : ∀ a ∈ l, a.off.length = ndim) (hM₁ : M₁.length = ndim) (hM : M.length = ndim) :
+    contribs (l.map fun a => { a with off := sub a.off M₁ }) (sub p (sub M₁ M))
+      = contribs (l.map fun a => { a with off := sub a.off M }) p := by
+  induction l with
+  | nil => rfl
+  | cons a l ih =>
+    simp only [List.map_cons]
+    rw [contribs_cons, contribs_cons, ih (fun b hb => hl b (by simp [hb])),
+      at_reframe a M₁ M p ndim hp (hl a (by simp)) hM₁ hM]
+
+theorem newShape_length (ndim : Nat) (l : List Arr) : (newShape ndim l).length = ndim := by simp [newShape]
+
 end Pew.Overlap
